@@ -36,7 +36,7 @@ def sig_of(ev):
         return "numeric/%s/%s/wrong-result" % (call, "n=0" if ev.get("n") == 0 else "n>0")
     if call in ("ParseFloat", "ParseDecimal"):
         b = _txt(ev.get("b", []))
-        m = re.match(rb"[+-]?(\d*)(?:\.(\d*))?(?:[eE]([+-]?)(\d+))?", b)
+        m = re.match(rb"[+-]?(\d*)(?:\.(\d*))?(?:[eE]([+-]?)(\d+))?" if call == "ParseFloat" else rb"-?(\d*)(?:\.(\d*))?()()", b)
         ip, fp, es, ed = (m.group(1) or b""), (m.group(2) or b""), (m.group(3) or b""), (m.group(4) or b"")
         if call == "ParseFloat" and len(ed.lstrip(b"0")) >= 19:
             return "numeric/ParseFloat/exponent-beyond-int64"
@@ -45,7 +45,7 @@ def sig_of(ev):
             ex = -ex
         if ex < -308 or len(fp) > 308 or ex - len(fp) < -308:
             return "numeric/%s/pow10-below-1e-308/wrong-value" % call
-        if ev.get("n", 0) != m.end() and not (call == "ParseDecimal" and b[:1] == b"+"):
+        if ev.get("n", 0) != m.end():
             return "numeric/%s/wrong-length" % call
         return "numeric/%s/wrong-value" % call
     if call == "AppendInt":
